@@ -234,9 +234,9 @@ def check_valid(c: SH.Case, stats: Stats, twin: bool) -> None:
                 if cls is None:
                     raise Violation(f"generated Python has no class {ref.py_class_name(m)} for {f.filename}", signature="py-class")
                 stats.evaluations += 1
-                if cls.BYTES_LENGTH != ref.nbytes(m):
+                if getattr(cls, "BYTES_LENGTH", None) != ref.nbytes(m):
                     raise Violation(
-                        f"{f.filename}: {ref.py_class_name(m)}.BYTES_LENGTH = {cls.BYTES_LENGTH}; with every name resolved by the documented rule the message has {ref.nbits(m)} bits = {ref.nbytes(m)} bytes",
+                        f"{f.filename}: {ref.py_class_name(m)}.BYTES_LENGTH = {getattr(cls, 'BYTES_LENGTH', '(missing)')}; with every name resolved by the documented rule the message has {ref.nbits(m)} bits = {ref.nbytes(m)} bytes",
                         {"uses": describe(c)["uses"]},
                         signature="bytes-length",
                     )
